@@ -303,25 +303,34 @@ class Check:
                 f.write(text)
             for dep in deps:         # modules it EXTENDS (same directory)
                 shutil.copy(os.path.join(SPECS, dep + ".tla"), tmp)
-            try:
-                p = subprocess.run(["tlapm", "--threads", "8",
-                                    module + ".tla"], cwd=tmp,
-                                   stdout=subprocess.PIPE,
-                                   stderr=subprocess.STDOUT, timeout=timeout)
-                out = p.stdout.decode("utf-8", "replace")
-            except subprocess.TimeoutExpired:
-                raise MachineryFailure("tlapm timed out on " + module)
+            # the back-end provers work under wall-clock time limits: on a
+            # loaded machine an obligation may time out, so an incomplete
+            # proof of the unmutated module is attempted once more with the
+            # limits stretched (a mutated module is expected to fail)
+            attempts = [["--threads", "8"]]
+            if not mutate:
+                attempts.append(["--threads", "4", "--stretch", "8"])
+            res = None
+            for extra in attempts:
+                try:
+                    p = subprocess.run(["tlapm"] + extra + [module + ".tla"],
+                                       cwd=tmp, stdout=subprocess.PIPE,
+                                       stderr=subprocess.STDOUT,
+                                       timeout=timeout)
+                    out = p.stdout.decode("utf-8", "replace")
+                except subprocess.TimeoutExpired:
+                    raise MachineryFailure("tlapm timed out on " + module)
+                m = re.search(r"All (\d+) obligations? proved", out)
+                if m:
+                    res = (int(m.group(1)), int(m.group(1)))
+                    break
+                m = re.search(r"(\d+)/(\d+) obligations? failed", out)
+                if not m:
+                    raise MachineryFailure("tlapm output not understood:\n"
+                                           + out[-2000:])
+                res = (int(m.group(2)) - int(m.group(1)), int(m.group(2)))
         finally:
             shutil.rmtree(tmp, ignore_errors=True)
-        m = re.search(r"All (\d+) obligations? proved", out)
-        if m:
-            res = (int(m.group(1)), int(m.group(1)))
-        else:
-            m = re.search(r"(\d+)/(\d+) obligations? failed", out)
-            if not m:
-                raise MachineryFailure("tlapm output not understood:\n" +
-                                       out[-2000:])
-            res = (int(m.group(2)) - int(m.group(1)), int(m.group(2)))
         if not mutate:
             self.obligations += res[1]
             self.discharged += res[0]
